@@ -16,12 +16,13 @@ vars == <<syms, ps>>
 
 Hdr == [nframes |-> 1, w |-> 1, h |-> 1, depth |-> 32, tidx |-> 0, pixw |-> 1, pixh |-> 1, speed |-> 100, magic |-> 42464]
 
-\* user data tokens are distinct per position; text-only, colour-only, both and empty records rotate
+\* user data records: text-only, colour-only, both, and EMPTY records (no flag set) rotate by position;
+\* the non-empty ones are distinct per position
 UdChunk(pos) ==
   CASE pos % 4 = 0 -> [k |-> "ud", text |-> <<<<85, 48 + pos>>>>, color |-> <<>>]
     [] pos % 4 = 1 -> [k |-> "ud", text |-> <<>>, color |-> <<<<pos, 2, 3, 255>>>>]
     [] pos % 4 = 2 -> [k |-> "ud", text |-> <<<<85, 48 + pos>>>>, color |-> <<<<pos, 5, 6, 7>>>>]
-    [] OTHER -> [k |-> "ud", text |-> <<<<48 + pos>>>>, color |-> <<>>]
+    [] OTHER -> [k |-> "ud", text |-> <<>>, color |-> <<>>]
 ChunkOf(sym, pos) ==
   CASE sym[1] = "layer" -> [k |-> "layer", flags |-> 1, ltype |-> 0, level |-> 0, blend |-> 0, opacity |-> 255, name |-> <<76>>, tileset |-> <<>>]
     [] sym[1] = "cel" -> [k |-> "cel", layer |-> sym[2], x |-> 0, y |-> 0, opacity |-> 255, ctype |-> 0, w |-> 1, h |-> 1,
@@ -76,24 +77,26 @@ Next == /\ Len(syms) < MaxLen
              /\ ps' = ApplyChunk(ps, ChunkOf(sym, Len(syms) + 1))
 Spec == Init /\ [][Next]_vars
 
-\* ---- what the machine did: which entity holds the record written at position i ----
-Holders(i) ==
-  LET u == Some(UDOf(UdChunk(i))) IN
-  {<<"layer", k - 1>> : k \in {k \in DOMAIN ps.layers : ps.layers[k].ud = u}}
-  \cup {<<"cel", ps.cels[k].l>> : k \in {k \in DOMAIN ps.cels : ps.cels[k].ud = u}}
-  \cup {<<"slice", k - 1>> : k \in {k \in DOMAIN ps.slices : ps.slices[k].ud = u}}
-  \cup (IF IsSome(ps.tags) THEN {<<"tag", k - 1>> : k \in {k \in DOMAIN ps.tags[1] : ps.tags[1][k].ud = u}} ELSE {})
-  \cup (IF ps.spriteUD = u THEN {<<"sprite">>} ELSE {})
-NumWithRecord ==
-  Cardinality({k \in DOMAIN ps.layers : IsSome(ps.layers[k].ud)}) + Cardinality({k \in DOMAIN ps.cels : IsSome(ps.cels[k].ud)})
-  + Cardinality({k \in DOMAIN ps.slices : IsSome(ps.slices[k].ud)})
-  + (IF IsSome(ps.tags) THEN Cardinality({k \in DOMAIN ps.tags[1] : IsSome(ps.tags[1][k].ud)}) ELSE 0)
-  + (IF IsSome(ps.spriteUD) THEN 1 ELSE 0)
+\* ---- what the machine did: the record each entity holds ----
+Entities ==
+  {<<"layer", k - 1>> : k \in DOMAIN ps.layers} \cup {<<"cel", ps.cels[k].l>> : k \in DOMAIN ps.cels}
+  \cup {<<"slice", k - 1>> : k \in DOMAIN ps.slices}
+  \cup (IF IsSome(ps.tags) THEN {<<"tag", k - 1>> : k \in DOMAIN ps.tags[1]} ELSE {}) \cup {<<"sprite">>}
+RecordOf(e) ==
+  CASE e[1] = "layer" -> ps.layers[e[2] + 1].ud
+    [] e[1] = "cel" -> ps.cels[CelIdx(ps.cels, 0, e[2])].ud
+    [] e[1] = "slice" -> ps.slices[e[2] + 1].ud
+    [] e[1] = "tag" -> ps.tags[1][e[2] + 1].ud
+    [] e[1] = "sprite" -> ps.spriteUD
+\* what the history says each entity must hold (no entity receives two records: at most one position per owner)
+Expected(e) ==
+  LET S == {i \in UdPositions(syms) : Owner(syms, i) = e}
+  IN IF S = {} THEN None ELSE Some(UDOf(UdChunk(CHOOSE i \in S : TRUE)))
 
-\* every record is attached to the entity the history names, and to no other
-UDOwnerInv == \A i \in UdPositions(syms) : Holders(i) = {Owner(syms, i)}
-\* entities without a record report none
-NoStrayInv == NumWithRecord = Cardinality(UdPositions(syms))
+\* every record is attached to the entity the history names and to no other; entities without a record report none
+UDOwnerInv == \A e \in Entities : RecordOf(e) = Expected(e)
+\* every owner named by the history exists as an entity
+NoStrayInv == \A i \in UdPositions(syms) : Owner(syms, i) \in Entities
 \* no well-formed program of this family is refused
 AcceptedInv == ~Stopped(ps) /\ Outcome(Validate(ps)) = "ok"
 \* ignorable chunks (and the neutral colour profile / new palette context-wise) are stuttering steps
